@@ -287,8 +287,12 @@ def base_case(draw):
         n = draw(st.integers(1, 2 ** 20))
         r = draw(st.sampled_from([0.5, 1.5, 36.5, 37.5, 1e9, -2.5, 0.999]))
     else:
-        n = draw(st.integers(0, 5000))
+        # exact powers of the radix and their neighbours (digit-count boundaries)
         r = draw(st.integers(2, 36))
+        k = draw(st.integers(0, 39))
+        while r ** k >= 2 ** 39:
+            k -= 1
+        n = max(0, r ** k + draw(st.sampled_from([0, 0, -1, 1])))
     places = draw(st.one_of(st.none(), st.none(), st.integers(0, 45))) if kind <= 5 else None
     return {'n': n, 'r': r, 'places': places, 'var': draw(st.booleans())}
 
